@@ -812,6 +812,13 @@ struct Snap {
     regs: usize,
     row: usize,
     call_rows: Vec<usize>,
+    /// heights of the value stack and of the variable-path stack
+    vals: usize,
+    paths: usize,
+    /// `go_sub_marks`, `return_marks`, `last_error_marks` (hook commit `verif hook: … marks`), oldest first
+    gm: Vec<(usize, usize)>,
+    rm: Vec<(usize, usize, usize, usize)>,
+    em: Option<(usize, usize)>,
 }
 
 struct RealRun {
@@ -950,6 +957,11 @@ fn run_real(text: &str, want_trace: bool, budget: u64) -> Result<RealRun, String
                     regs: s.register_stack,
                     row: s.row as usize,
                     call_rows: s.stacktrace.iter().map(|(r, _)| *r as usize).collect(),
+                    vals: s.value_stack,
+                    paths: s.var_path_stack,
+                    gm: s.go_sub_marks.clone(),
+                    rm: s.return_marks.clone(),
+                    em: s.error_marks,
                 });
             } else {
                 v.1 = true;
@@ -1033,6 +1045,197 @@ fn snap_str(s: &Snap) -> String {
         s.ea.map(|x| x.to_string()).unwrap_or("-".into()),
         s.ec.map(|x| x.to_string()).unwrap_or("-".into())
     )
+}
+
+/// the top-level elements of `(e1 e2 ...)`
+fn split_top(s: &str) -> Vec<String> {
+    let inner = s.trim();
+    let inner = inner.strip_prefix('(').unwrap_or(inner);
+    let inner = inner.strip_suffix(')').unwrap_or(inner);
+    let mut out = vec![];
+    let mut depth = 0i32;
+    let mut cur = String::new();
+    for ch in inner.chars() {
+        match ch {
+            '(' => {
+                depth += 1;
+                cur.push(ch);
+            }
+            ')' => {
+                depth -= 1;
+                cur.push(ch);
+            }
+            ' ' if depth == 0 => {
+                if !cur.is_empty() {
+                    out.push(std::mem::take(&mut cur));
+                }
+            }
+            _ => cur.push(ch),
+        }
+    }
+    if !cur.is_empty() {
+        out.push(cur);
+    }
+    out
+}
+
+/// ImplVsProperty, on the real snapshots alone (hook: `go_sub_marks`, `return_marks`, `error_marks`): the recorded
+/// heights belong to the address stacks entry by entry, what is recorded is the height of the moment, and a height
+/// that is about to be used (RETURN, PopRet, RESUME, RESUME NEXT, RESUME label) is not above its stack.
+/// Returns the first violation of the run.
+fn marks_invariants(real: &RealRun, sig: &str, text: &str, rep: &mut Report) -> Option<Failure> {
+    let fam = sig.split(':').next().unwrap_or("");
+    let fail = |what: &str, k: usize, sn: &Snap, got: String, want: String| Failure {
+        kind: Kind::ImplVsProperty,
+        signature: format!("marks-invariant:{}:{}", what, fam),
+        input: text.to_owned(),
+        implementation: format!(
+            "step {} (pc {}, row {}): {}; register / value / variable-path heights {} / {} / {}, go_sub_address_stack {:?}, go_sub_marks {:?}, \
+             return_address_stack {:?}, return_marks {:?}, last_error_address {:?}, last_error_marks {:?}",
+            k, sn.pc, sn.row, got, sn.regs, sn.vals, sn.paths, sn.gosub, sn.gm, sn.ret, sn.rm, sn.ea, sn.em
+        ),
+        expected: want,
+        note: "go_sub_marks / return_marks are pushed, popped and truncated together with go_sub_address_stack / return_address_stack \
+               (interpreter/main.rs: GoSub, Return, PushRet, PopRet, ResumeLabel); the heights are those of the moment of the GoSub / \
+               PushRet / dispatch"
+            .into(),
+    };
+    rep.bump_by("marks.snapshots-checked", real.snaps.len() as u64);
+    for (k, sn) in real.snaps.iter().enumerate() {
+        if sn.gm.len() != sn.gosub.len() {
+            return Some(fail(
+                "gosub-marks-length",
+                k,
+                sn,
+                format!("{} entries in go_sub_marks, {} in go_sub_address_stack", sn.gm.len(), sn.gosub.len()),
+                "go_sub_marks.len() == go_sub_address_stack.len() before every instruction".into(),
+            ));
+        }
+        if sn.rm.len() != sn.ret.len() {
+            return Some(fail(
+                "return-marks-length",
+                k,
+                sn,
+                format!("{} entries in return_marks, {} in return_address_stack", sn.rm.len(), sn.ret.len()),
+                "return_marks.len() == return_address_stack.len() before every instruction".into(),
+            ));
+        }
+        let op = real.frame_op.get(sn.pc).copied().unwrap_or(b'w');
+        // ---- a recorded height that is about to be used is not above its stack
+        match op {
+            b't' if sn.gosub.len() > sn.rm.last().map(|m| m.1).unwrap_or(0) => {
+                rep.bump("marks.uses-checked.return");
+                if let Some((r, v)) = sn.gm.last().copied() {
+                    if r > sn.regs || v > sn.vals {
+                        return Some(fail(
+                            "return-above-stack",
+                            k,
+                            sn,
+                            format!("RETURN is about to cut back to ({}, {})", r, v),
+                            "the heights recorded by the GOSUB are at most the present heights of the register and value stacks".into(),
+                        ));
+                    }
+                }
+            }
+            b'r' => {
+                rep.bump("marks.uses-checked.popret");
+                if let Some((r, g, v, p)) = sn.rm.last().copied() {
+                    if r > sn.regs || g > sn.gosub.len() || v > sn.vals || p > sn.paths {
+                        return Some(fail(
+                            "popret-above-stack",
+                            k,
+                            sn,
+                            format!("PopRet is about to cut back to ({}, {}, {}, {})", r, g, v, p),
+                            "the heights recorded by PushRet are at most the present heights of the register, GOSUB, value and variable-path stacks".into(),
+                        ));
+                    }
+                }
+            }
+            b'n' if sn.ea.is_some() => {
+                rep.bump("marks.uses-checked.resume");
+                match sn.em {
+                    Some((r, v)) if r <= sn.regs && v <= sn.vals => {}
+                    _ => {
+                        return Some(fail(
+                            "resume-above-stack",
+                            k,
+                            sn,
+                            format!("RESUME / RESUME NEXT is about to cut back to {:?}", sn.em),
+                            "the heights recorded at the dispatch are at most the present heights of the register and value stacks".into(),
+                        ));
+                    }
+                }
+            }
+            b'l' if sn.ea.is_some() => {
+                rep.bump("marks.uses-checked.resume-label");
+                if let Some((r, g, _, _)) = sn.rm.first().copied() {
+                    if r > sn.regs || g > sn.gosub.len() {
+                        return Some(fail(
+                            "resume-label-above-stack",
+                            k,
+                            sn,
+                            format!("RESUME label is about to cut back to ({}, {})", r, g),
+                            "the heights recorded by the outermost PushRet are at most the present heights of the register and GOSUB stacks".into(),
+                        ));
+                    }
+                }
+            }
+            _ => {}
+        }
+        // ---- what is recorded is the height of the moment
+        let Some(nx) = real.snaps.get(k + 1) else { continue };
+        let dispatched = sn.hk == 2 && nx.pc == sn.ha && nx.ea == Some(sn.pc);
+        if dispatched {
+            rep.bump("marks.records-checked.dispatch");
+            // the handler's own frame is pushed after the heights are taken (df9ea58)
+            if nx.em != Some((nx.regs.wrapping_sub(1), nx.vals)) {
+                return Some(fail(
+                    "dispatch-records",
+                    k + 1,
+                    nx,
+                    format!("after the dispatch of the error at pc {} last_error_marks is {:?}", sn.pc, nx.em),
+                    format!("({}, {}): the heights of the register stack (below the handler's own frame) and of the value stack", nx.regs.wrapping_sub(1), nx.vals),
+                ));
+            }
+            continue;
+        }
+        let failed = nx.ec != sn.ec || nx.ea != sn.ea;
+        if failed {
+            continue;
+        }
+        match op {
+            b'g' => {
+                rep.bump("marks.records-checked.gosub");
+                let mut want = sn.gm.clone();
+                want.push((sn.regs, sn.vals));
+                if nx.gm != want {
+                    return Some(fail(
+                        "gosub-records",
+                        k + 1,
+                        nx,
+                        format!("after the GoSub at pc {} go_sub_marks is {:?}", sn.pc, nx.gm),
+                        format!("{:?}: the entries there were + the heights of the register and value stacks at the GoSub", want),
+                    ));
+                }
+            }
+            b'c' => {
+                rep.bump("marks.records-checked.pushret");
+                let mut want = sn.rm.clone();
+                want.push((sn.regs, sn.gosub.len(), sn.vals, sn.paths));
+                if nx.rm != want {
+                    return Some(fail(
+                        "pushret-records",
+                        k + 1,
+                        nx,
+                        format!("after the PushRet at pc {} return_marks is {:?}", sn.pc, nx.rm),
+                        format!("{:?}: the entries there were + the heights of the register, GOSUB, value and variable-path stacks at the PushRet", want),
+                    ));
+                }
+            }
+            _ => {}
+        }
+    }
+    None
 }
 
 struct Pending {
@@ -1179,13 +1382,34 @@ fn record(cx: &mut Ctx, job: &Job, done: Done) -> Option<Failure> {
                     None => "l".to_owned(),
                 },
                 Some(b'g') => "g".to_owned(),
-                // RETURN restores the height recorded by the GOSUB it answers (8f09b9b); without one it fails
-                Some(b't') if !sn.gosub.is_empty() => "t".to_owned(),
+                // RETURN restores the height recorded by the GOSUB it answers (8f09b9b); without one of the running
+                // procedure it fails (37cc5db: the GOSUBs of the callers, counted by the innermost `return_marks`
+                // entry, are not its own)
+                Some(b't') if sn.gosub.len() > sn.rm.last().map(|m| m.1).unwrap_or(0) => "t".to_owned(),
                 _ => "w".to_owned(),
             })
             .collect();
-        let want: Vec<String> = real.snaps.iter().map(|sn| sn.regs.to_string()).collect();
-        cx.pending_frames.push((sig.to_owned(), text.clone(), format!("(frames.depths ({}))", ops.join(" ")), format!("({})", want.join(" "))));
+        // the model's state: height, the register heights recorded by the pending GOSUBs (most recent first), the
+        // (register, GOSUB) heights recorded by the calls in progress (innermost first), the register height recorded
+        // at the last dispatch to a handler — against register_stack.len(), go_sub_marks[..].0, return_marks[..].(0, 1),
+        // last_error_marks.0
+        let want: Vec<String> = real
+            .snaps
+            .iter()
+            .map(|sn| {
+                format!(
+                    "({} ({}) ({}) {})",
+                    sn.regs,
+                    sn.gm.iter().rev().map(|m| m.0.to_string()).collect::<Vec<_>>().join(" "),
+                    sn.rm.iter().rev().map(|m| format!("({} {})", m.0, m.1)).collect::<Vec<_>>().join(" "),
+                    sn.em.map(|m| m.0.to_string()).unwrap_or("-".into())
+                )
+            })
+            .collect();
+        cx.pending_frames.push((sig.to_owned(), text.clone(), format!("(frames.states ({}))", ops.join(" ")), format!("({})", want.join(" "))));
+        if let Some(f) = marks_invariants(&real, sig, &text, &mut cx.rep) {
+            cx.rep.fail(f);
+        }
     }
     if job.frames && job.trace {
         // ImplVsProperty (the typing of Thm.C05.frames_intact): at the first instruction of every statement
@@ -1339,16 +1563,26 @@ fn flush_model(cx: &mut Ctx) {
         for ((sig, text, _, want), a) in pf.iter().zip(answers.iter()) {
             cx.rep.bump("model.frame-runs-compared");
             if a != want {
-                let (wv, av): (Vec<&str>, Vec<&str>) = (want.split(' ').collect(), a.split(' ').collect());
+                let (wv, av) = (split_top(want), split_top(a));
                 let k = wv.iter().zip(av.iter()).position(|(x, y)| x != y).unwrap_or(wv.len().min(av.len()));
+                let none = String::from("-");
+                let (w, m) = (wv.get(k).unwrap_or(&none), av.get(k).unwrap_or(&none));
+                // the height itself, or only the recorded heights
+                let height = |x: &str| x.trim_start_matches('(').split(' ').next().unwrap_or("").to_owned();
+                let what = if height(w) != height(m) { "frame-machine" } else { "frame-machine-marks" };
                 cx.rep.fail(Failure {
                     kind: Kind::ModelVsImpl,
-                    signature: format!("frame-machine:{}", sig.split(':').next().unwrap_or("")),
+                    signature: format!("{}:{}", what, sig.split(':').next().unwrap_or("")),
                     input: text.clone(),
-                    implementation: format!("step {}: real register stack height {}", k, wv.get(k).unwrap_or(&"-")),
-                    expected: format!("RbModel.Frames.depths gives {}", av.get(k).unwrap_or(&"-")),
-                    note: "PushRegisters pushes a fresh frame, PopRegisters pops one, nothing else changes the height".into(),
+                    implementation: format!("step {}: real {} (previous {})", k, w, if k > 0 { wv.get(k - 1).unwrap_or(&none) } else { &none }),
+                    expected: format!("RbModel.Frames.states gives {}", m),
+                    note: "state = (register stack height, go_sub_marks[..].0 most recent first, return_marks[..].(0 1) innermost first, last_error_marks.0); \
+                           PushRegisters pushes a fresh frame, PopRegisters pops one, GoSub / PushRet / the dispatch to a handler record, \
+                           Return / PopRet / RESUME cut back and drop what they recorded"
+                        .into(),
                 });
+            } else {
+                cx.rep.bump_by("model.frame-states-compared", split_top(want).len() as u64);
             }
         }
     }
